@@ -6,6 +6,7 @@ import Glas.Gen.Kind
 import Glas.Gen.Lexer
 import Glas.Gen.Parser
 import Glas.Gen.Policy
+import Glas.Model.Items
 /-! Driver commands for M-syntax: `lex`, `parse` (generated lexer rules, generated parser program,
 generated tree-builder policy). -/
 namespace Glas.SyntaxCmd
@@ -75,8 +76,27 @@ def parseStat (s : List Char) : String :=
   | .error e => e
   | .ok (_, σ, _) => s!"ok depth={σ.maxDepth} errs={σ.errs.length}"
 
+/-- `items`: the module loop item by item (`Items.parseItems`, every item parsed from a fresh state): byte range of
+each item from its first to its last token -/
+def itemsCmd (s : List Char) : String :=
+  let raw := lexText s
+  let toks := (raw.filter (fun t => !parserTrivia t.1)).map (fun t => t.1)
+  let rs := tokRanges raw
+  match Glas.Items.parseItems glasProg I_statement (modelFuel s) toks (toks.length + 1) with
+  | none => "none"
+  | some items =>
+    "items" ++ String.join (items.map (fun o =>
+      let a := ((rs[o.start]?).getD (0, 0)).1
+      let b := ((rs[o.stop - 1]?).getD (0, 0)).2
+      s!" {a}-{b}"))
+
+def triviaKinds : String :=
+  " ".intercalate (((List.range 200).filter parserTrivia).map toString)
+
 def run (args : List String) : Option String :=
   match args with
+  | ["items", h] => (unhex h).map itemsCmd
+  | ["trivia-kinds"] => some triviaKinds
   | ["lex", h] => (unhex h).map lexCmd
   | ["parse", h] => (unhex h).map parseCmd
   | ["parsestat", h] => (unhex h).map parseStat
